@@ -398,6 +398,12 @@ func checkShard(propV, tierV, shard string) *checkAcc {
 	if *tier == "thorough" {
 		timeout = 60 * time.Second
 	}
+	if sn > 1 {
+		solvePar = 16 / sn
+		if solvePar < 2 {
+			solvePar = 2
+		}
+	}
 	w, err := loadWorld(allPatterns, "")
 	if err != nil {
 		fmt.Printf("TOOLING-ERROR: cannot load /repo with -tags verif: %v\n", err)
